@@ -57,8 +57,8 @@ def raw_bytes(n):
 def raw_for(t, finite_floats=False):
     k = t[0]
     if t == "CH":
-        return st.one_of(st.binary(min_size=1, max_size=40),
-                         st.text(alphabet="abc xyz\xe9€", min_size=1, max_size=20).map(
+        return st.one_of(st.binary(min_size=0, max_size=40),
+                         st.text(alphabet="abc xyz\xe9€", min_size=0, max_size=20).map(
                              lambda s: s.encode("utf-8")))
     if k in codec.INT_LETTERS:
         return raw_int(t)
